@@ -20,11 +20,41 @@ def call(f, *a, **k):
     A list of strings that comes back (expand_all, expand_pair_all) is the caller's: the driver appends an entry of
     its own to it, as a caller may; whatever is asked afterwards must not notice."""
     o = outcome_of(f, *a, **k)
+    name = getattr(f, "__name__", "")
+    if name in REASKED and getattr(f, "__self__", None) is not None:
+        S = probe.S
+        S.asked_n += 1
+        if S.asked_n <= 120 or (S.asked_n % 41 == 0 and len(S.asked) < 400):
+            S.asked.append((f, a, k))
     if o[0] == "ret" and type(o[1]) is list and o[1] and all(isinstance(x, str) for x in o[1]) and getattr(f, "__name__", "") in ("expand_all", "expand_pair_all"):
         o[1].append("zz-appended-by-the-caller")
         probe.note_caller_mutation(o[1])
         probe.S.counters["wl:results-mutated-by-the-caller"] += 1
     return o
+
+
+REASKED = {
+    "parse_uri", "compress", "is_uri", "expand", "expand_pair", "expand_reference", "expand_all", "expand_pair_all", "is_curie",
+    "standardize_prefix", "standardize_curie", "standardize_uri", "parse", "parse_curie", "compress_or_standardize",
+    "expand_or_standardize", "get_record",
+}
+
+
+def reask(rng, k=60):
+    """At the end of a case: a sample of the queries the driver made during it, once more, in shuffled order.
+
+    Every answer is judged on its own by the reference-model monitors against what the converter holds NOW (it may have
+    grown since), so the order of calls is free; an answer that depends on what was asked just before, or on what the
+    same object answered earlier in its life (a remembered last match, a memo that is not invalidated), only shows
+    when the same questions come back in another order (seeds C02-O, C06-O, C08-O)."""
+    S = probe.S
+    asked, S.asked = S.asked, []
+    if not asked:
+        return
+    sample = rng.sample(asked, k=min(k, len(asked)))
+    for f, a, kw in sample:
+        outcome_of(f, *a, **kw)
+    S.counters["wl:queries-re-asked-shuffled-at-the-end-of-the-case"] += len(sample)
 
 
 def core_queries(c, q, modes=False):
